@@ -412,10 +412,49 @@ def corpus_variants(pid: str, ctx: Ctx) -> list:
                 continue
             out.append(dict(name=f"refactors/{name}", patch=pf,
                             expect="silent"))
+    # third corpus: realistic legitimate commits (features, modernisations,
+    # bug fixes). Expected silent; an alarm is accepted only where the
+    # commit's meta.json lists it as a true alarm (the commit does deviate
+    # from the property text), and "cannot decide" is accepted and recorded
+    cdir = os.path.join(VERIF, "commits")
+    if os.path.isdir(cdir):
+        for name in sorted(os.listdir(cdir)):
+            pf = os.path.join(cdir, name, "patch.diff")
+            mf = os.path.join(cdir, name, "meta.json")
+            if not (os.path.isfile(pf) and os.path.isfile(mf)):
+                continue
+            touched = {l.split(" b/")[1].strip() for l in open(pf)
+                       if l.startswith("diff --git")}
+            if files and not (touched & files):
+                continue
+            try:
+                meta = json.load(open(mf))
+            except Exception:
+                continue
+            true_keys = ((meta.get("true_alarms") or {}).get("alarms")
+                         or {}).get(pid, [])
+            out.append(dict(name=f"commits/{name}", patch=pf,
+                            expect="silent", allow_error=True,
+                            true_keys=list(true_keys)))
     return out
 
 
-UNDECIDABLE_SEEDS = ("C14d", "C20g", "C20h")
+# seeded changes on which the check refuses to decide (exit 2, "unknown
+# idiom") instead of reporting the violation: the defect sits inside code the
+# carrying commit re-wrote with an algorithm / representation the rules have
+# no model of. One line of reason each; DESIGN.md §13 / §18.
+UNDECIDABLE_SEEDS = (
+    "C14d",   # vendored euler_from_matrix edited: summary must be re-derived
+    "C20g",   # vectorised marker geometry (axis-role typing of reshapes)
+    "C20h",   # same, with rows/columns of the rotation swapped
+    "C01i",   # crop moved to index ranges via np.searchsorted (exclusive end)
+    "C06h",   # bag stamps through a divmod helper, Time(*divmod(...))
+    "C07j",   # EuRoC stamps parsed with integer arithmetic in a new helper
+    "C11h",   # motion filter loop re-written over zip(poses, distances)
+    "C13j",   # per-array merge strategy table
+    "C15i",   # inversion moved into load_transform(invert=...) (analytic)
+    "C19h",   # write_atomic on tempfile.NamedTemporaryFile
+)
 
 
 def run_selftest(pid: str, mod, ctx: Ctx, repo: str) -> dict:
@@ -455,9 +494,10 @@ def run_selftest(pid: str, mod, ctx: Ctx, repo: str) -> dict:
                         "why": f"variant does not parse: {e}"}
             r = _run_json(pid, d)
             if r is None or "error" in r:
-                if v["expect"] == "fire" and v.get("allow_error"):
+                if v.get("allow_error"):
                     return {"name": v["name"], "outcome": "ok",
-                            "detail": "analysis error (accepted)"}
+                            "detail": "analysis error / undecidable "
+                                      "(accepted, recorded)"}
                 return {"name": v["name"], "outcome": "deviation",
                         "why": f"checker failed on variant: "
                                f"{(r or {}).get('error')}"}
@@ -476,7 +516,14 @@ def run_selftest(pid: str, mod, ctx: Ctx, repo: str) -> dict:
                         "why": f"expected a new violation of {want}, got "
                                f"{sorted({x['rule'] for x in new})}"}
             else:
+                tk = v.get("true_keys") or []
+                new = [x for x in new
+                       if not any(k in x["key"] for k in tk)]
                 if not new:
+                    if v.get("allow_error") and r.get("undecided"):
+                        return {"name": v["name"], "outcome": "ok",
+                                "detail": "undecidable (accepted, "
+                                          "recorded)"}
                     return {"name": v["name"], "outcome": "ok"}
                 return {"name": v["name"], "outcome": "deviation",
                         "why": "behaviour-preserving variant raised "
